@@ -327,6 +327,17 @@ inductive View (ν α : Type) where
   /-- `TensorRefMatrix<T, MatrixRefTensor<T, S>, N>`: a 2-dimensional tensor view seen as a matrix
       (`MatrixRefTensor`, the only matrix source that can be column major) seen as a tensor again -/
   | matrixOf (source : View ν α) (rowName columnName : ν)
+  /-- `MatrixRange { source, rows, columns }` over the matrix a 2-dimensional tensor view is
+      (`MatrixRefTensor`), seen as a tensor again under the source's own names.  Between a
+      `MatrixRefTensor` below and a `TensorRefMatrix` above, matrix adaptors stack directly; the
+      model inserts the (neutral: C12 `cell_equations`, `layout_eq_spec`) tensor round trip after
+      each so that every node is a tensor view.  Cells and shape are those of a `TensorRange`
+      with the two clipped ranges (the getters are the same `IndexRange::map` calls); the layout
+      is the *source's* (`MatrixRange::data_layout` forwards it), not `NonLinear`. -/
+  | mrange (source : View ν α) (rows columns : IndexRange)
+  /-- `MatrixReverse { source, rows, columns }`, likewise: cells of a `TensorReverse` (the getters
+      share `try_reverse_indexes` / `reverse_indexes`), layout `Other`. -/
+  | mreverse (source : View ν α) (rows columns : Bool)
   /-- `TensorMap { source, f }` (views/map.rs; crate-private, `TensorRef` only): exposes
       `f(source[idx])`.  Shape, index mapping and layout are the source's; the element handed out
       is `f` of the element in the designated cell (the library's one use is the projection
@@ -366,6 +377,8 @@ def shape : View ν α → Shape ν
   | .matrixOf s r c =>
     -- `view_rows = source.view_shape()[0].1`, `view_columns = source.view_shape()[1].1`
     [(r, (s.shape.getD 0 (default, 0)).2), (c, (s.shape.getD 1 (default, 0)).2)]
+  | .mrange s rows columns => rangeShape s.shape [rows, columns]
+  | .mreverse s _ _ => s.shape
   | .tmap s => s.shape
   | .range s rs => rangeShape s.shape rs
   | .mask s ms => maskShape s.shape ms
@@ -412,6 +425,13 @@ def get : View ν α → List Nat → Outcome (Option Cell)
   | .matrixOf s _ _, indexes =>
     -- `self.source.try_get_reference(indexes[0], indexes[1])` = `source.get_reference([row, column])`
     s.get [indexes.getD 0 0, indexes.getD 1 0]
+  | .mrange s rows columns, indexes =>
+    -- `self.source.try_get_reference(self.rows.map(row)?, self.columns.map(column)?)`
+    obind (mapIndexesByRange indexes [rows, columns]) fun mapped => s.get mapped
+  | .mreverse s rows columns, indexes =>
+    match tryReverseIndexes indexes (lens s.shape) [rows, columns] with
+    | some mapped => s.get mapped
+    | none => .ok none
   | .tmap s, indexes => s.get indexes      -- `Some((self.f)(self.source.get_reference(indexes)?))`
   | .range s rs, indexes => obind (mapIndexesByRange indexes rs) fun mapped => s.get mapped
   | .mask s ms, indexes =>
@@ -465,6 +485,15 @@ def getUnchecked : View ν α → List Nat → Outcome Cell
   | .tensor id t, indexes => tensorGetUnchecked id t indexes
   | .matrix id m _ _, indexes => matrixGetUnchecked id m indexes
   | .matrixOf s _ _, indexes => s.getUnchecked [indexes.getD 0 0, indexes.getD 1 0]
+  | .mrange s rows columns, indexes =>
+    match mapIndexesByRange indexes [rows, columns] with
+    | .ok (some mapped) => s.getUnchecked mapped
+    | .ok none => .panic .unwrap
+    | .panic k => .panic k
+  | .mreverse s rows columns, indexes =>
+    match reverseIndexes indexes (lens s.shape) [rows, columns] with
+    | .ok mapped => s.getUnchecked mapped
+    | .panic k => .panic k
   | .tmap s, indexes => s.getUnchecked indexes
   | .range s rs, indexes =>
     match mapIndexesByRange indexes rs with
@@ -542,6 +571,14 @@ def layout : View ν α → Outcome (DataLayout ν)
     match s.layout with
     | .ok sourceLayout => .ok (tensorRefMatrixLayout r c (matrixRefTensorLayout s.shape sourceLayout))
     | .panic k => .panic k
+  | .mrange s _ _ =>
+    -- `MatrixRange::data_layout` = the source's, here `MatrixRefTensor`'s of `s`, translated back
+    match s.layout with
+    | .ok sourceLayout =>
+      .ok (tensorRefMatrixLayout (s.shape.getD 0 (default, 0)).1 (s.shape.getD 1 (default, 0)).1
+        (matrixRefTensorLayout s.shape sourceLayout))
+    | .panic k => .panic k
+  | .mreverse _ _ _ => .ok .other      -- `MatrixReverse::data_layout` = `Other`
   | .tmap s => s.layout
   | .range _ _ => .ok .nonLinear
   | .mask _ _ => .ok .nonLinear
@@ -568,6 +605,8 @@ def leaves : View ν α → List (Nat × List α)
   | .tensor id t => [(id, t.data)]
   | .matrix id m _ _ => [(id, m.data)]
   | .matrixOf s _ _ => s.leaves
+  | .mrange s _ _ => s.leaves
+  | .mreverse s _ _ => s.leaves
   | .tmap s => s.leaves
   | .range s _ => s.leaves
   | .mask s _ => s.leaves
@@ -605,6 +644,8 @@ def setCell (c : Cell) (x : α) : View ν α → View ν α
   | .matrix id m r cn =>
     if id = c.1 then .matrix id { m with data := m.data.set c.2 x } r cn else .matrix id m r cn
   | .matrixOf s r cn => .matrixOf (setCell c x s) r cn
+  | .mrange s rows columns => .mrange (setCell c x s) rows columns
+  | .mreverse s rows columns => .mreverse (setCell c x s) rows columns
   | .tmap s => .tmap (setCell c x s)
   | .range s p => .range (setCell c x s) p
   | .mask s p => .mask (setCell c x s) p
@@ -650,6 +691,29 @@ def mkMatrixOf (s : View ν α) (rowName columnName : ν) : Option (View ν α) 
   else if isValidShape [(rowName, (s.shape.getD 0 (default, 0)).2),
       (columnName, (s.shape.getD 1 (default, 0)).2)] then some (.matrixOf s rowName columnName)
   else none
+
+/-- a matrix-side adaptor between `MatrixRefTensor` and `TensorRefMatrix` -/
+inductive MatOp where
+  /-- `MatrixRange::from(source, rows, columns)` -/
+  | range (rows columns : IndexRange)
+  /-- `MatrixReverse::from(source, Reverse { rows, columns })` -/
+  | reverse (rows columns : Bool)
+  deriving DecidableEq, Repr
+
+/-- the stack of matrix adaptors applied in order (`MatrixRange::from` clips both ranges to the
+    size of its source and rejects nothing; `MatrixReverse::from` validates nothing) -/
+def applyMatOps : View ν α → List MatOp → View ν α
+  | s, [] => s
+  | s, .range rows columns :: ops =>
+    applyMatOps (.mrange s (rows.clip (s.shape.getD 0 (default, 0)).2)
+      (columns.clip (s.shape.getD 1 (default, 0)).2)) ops
+  | s, .reverse rows columns :: ops => applyMatOps (.mreverse s rows columns) ops
+
+/-- `TensorRefMatrix::with_names(<matrix adaptors>(MatrixRefTensor::from(source)), names)`: the
+    only validation is `with_names`' check of the final shape (an empty range anywhere leaves an
+    empty matrix) -/
+def mkMatrixStack (s : View ν α) (ops : List MatOp) (rowName columnName : ν) : Option (View ν α) :=
+  if s.shape.length ≠ 2 then none else mkMatrixOf (applyMatOps s ops) rowName columnName
 
 /-- one step of the `for (name, range) in ranges` loop of `from_named_to_all` -/
 def namedStep (shape : Shape ν) (all : List (Option IndexRange)) (p : ν × IndexRange) :
@@ -848,6 +912,8 @@ def sources : View ν α → List (View ν α)
   | .tensor _ _ => []
   | .matrix _ _ _ _ => []
   | .matrixOf _ _ _ => []
+  | .mrange _ _ _ => []
+  | .mreverse _ _ _ => []
   | .tmap _ => []        -- crate-private, its accessors are dead code
   | .range _ _ => []     -- `TensorRange` / `TensorMask` offer no accessor
   | .mask _ _ => []
